@@ -395,8 +395,21 @@ func c06ConcSub() *engine.Sub {
 		}, allPairs, 2, 3)
 }
 
+// fewProbes: SWEEP probes for call lists whose calls are expensive and execute many sync operations.
+func fewProbes(tier string, n int) []int {
+	k := 4
+	if tier == "thorough" {
+		k = 24
+	}
+	var r []int
+	for i := 0; i < k && i*(n/k+1) < n; i++ {
+		r = append(r, i*(n/k+1))
+	}
+	return r
+}
+
 func c17ConcSub() *engine.Sub {
-	return engine.ConcurrentSub("concurrent-container-io", "containers written and read from two logical threads",
+	return engine.ConcurrentSubSweep("concurrent-container-io", "containers written and read from two logical threads",
 		func(tier string) []engine.Call {
 			var cs []engine.Call
 			sets := [][]string{{"dlg"}, {"dlg", "inv"}, {"dlg2", "inv2", "dlg3"}, {}}
@@ -455,7 +468,7 @@ func c17ConcSub() *engine.Sub {
 				}
 			}
 			return r
-		}, 2, 3)
+		}, fewProbes, 2, 3)
 }
 
 func c08ConcSub() *engine.Sub {
